@@ -421,12 +421,63 @@ def run(ctx):
         if len(out.samples) < 5 and nontrivial and rule_depth(rule) >= 1:
             out.samples.append({'line': line[:400], 'rule': repr(rule)[:300], 'what': repr(what)[:100],
                                 'impl': impl_s, 'model': m, 'oracle': orc_s})
+    _outside_protocol(ctx, out, rng)
     out.rule = ('rule trees to depth 4 over all built-in classes + user doubles, operand drawn first and rule aimed '
                 'at it (p~1/2 per leaf), plus the complete product of %d leaf rules x %d operands; non-trivial = '
                 'answer is True or raise, or the tree is a composition; distinct by protocol line'
                 % (len(leaf_rules), len(table)))
+    out.rule += ('; a stream of operands outside the line protocol (NaN, infinities, sets / frozensets, IPv4-mapped IPv6 addresses '
+                 'and networks that contain them) judged by the direct oracle alone')
     out.extra['leaf_product'] = {'leaf_rules': len(leaf_rules), 'operands': len(table), 'exhaustive_slice': True}
     return out
+
+
+def _outside_protocol(ctx, out, rng):
+    """operands the line protocol has no spelling for, judged by the direct oracle alone: comparison rules over values that are
+    not totally ordered (NaN, infinities, sets / frozensets that are not subsets of one another) - the rule is the Python operator,
+    not the negation of its opposite -, and the network rule over addresses of the other family written in the notation of this
+    one (IPv4-mapped IPv6 addresses, IPv6 networks that contain them)"""
+    nan, inf = float('nan'), float('inf')
+    numbers = [nan, inf, -inf, 0, 50, 50.0, -1, 2 ** 60, True]
+    sets = [set(), {1}, {2}, {1, 2}, {2, 3}, frozenset({1, 2}), frozenset({3}), {1, 2, 3}]
+    addrs = ['::ffff:10.1.2.3', '::ffff:192.168.0.1', '::ffff:0.0.0.0', '10.1.2.3', '::1', '::ffff:0:1', '64:ff9b::10.1.2.3',
+             '2002:a01:203::1', '::10.1.2.3', 'fe80::1', '0:0:0:0:0:ffff:a01:203']
+    nets = ['::ffff:0:0/96', '::/0', '10.0.0.0/8', '0.0.0.0/0', '::ffff:10.0.0.0/104', '::ffff:a01:200/120', '64:ff9b::/96',
+            '2002::/16', '::/96', 'fe80::/10', '192.168.0.0/16']
+    cases = []
+    for _ in range(ctx.budget(400, 8000)):
+        c = rng.random()
+        if c < 0.4:
+            cases.append(((pick(rng, ['eq', 'ne', 'gt', 'lt', 'ge', 'le']), pick(rng, numbers)), pick(rng, numbers)))
+        elif c < 0.7:
+            cases.append(((pick(rng, ['eq', 'ne', 'gt', 'lt', 'ge', 'le']), pick(rng, sets)), pick(rng, sets)))
+        else:
+            cases.append((('cidr', pick(rng, nets)), pick(rng, addrs)))
+    for rule, what in cases:
+        try:
+            robj = proto.build_rule(rule)
+        except Exception:
+            out.count('unconstructible')
+            continue
+        a = impl_eval(robj, what, None)
+        o = oracle(rule, what, None)
+        out.evaluations += 1
+        out.count('outside-protocol:' + rule[0])
+        impl_s = 'raise' if a == 'raise' else ('ok T' if a else 'ok F')
+        orc_s = 'raise' if o == 'raise' else ('ok T' if o else 'ok F')
+        if impl_s != orc_s:
+            f = Failure('oracle', {'rule': repr(rule), 'what': repr(what), 'inquiry': 'None'}, impl_s, None,
+                        'direct oracle (plain Python operators / ipaddress containment) says ' + orc_s,
+                        'Vakt.C05 (documented meaning of %s)' % rule[0])
+            f.signature = 'oracle:' + rule[0]
+            out.failures.append(f)
+        if rule[0] in TWINS and a != 'raise':
+            t1 = impl_eval(proto.build_rule((TWINS[rule[0]],) + tuple(rule[1:])), what, None)
+            if t1 == 'raise' or t1 == a:
+                f = Failure('oracle', {'rule': repr(rule), 'what': repr(what), 'inquiry': 'None'}, {'rule': a, 'twin': t1}, None,
+                            'negative rule is not the complement of its positive twin', 'Vakt.C05.notEq_compl')
+                f.signature = 'twin:' + rule[0]
+                out.failures.append(f)
 
 
 def replay(ctx, rp):
